@@ -197,10 +197,13 @@ impl<T> Pool<T> {
             TryAcquireError::NoPermits => PoolError::Timeout,
             TryAcquireError::Closed => PoolError::Closed,
         })?;
+        // The queue can only be empty here if the pool was closed (and
+        // therefore cleared) after the permit was obtained.
         let obj = {
             let mut queue = inner.queue.lock().unwrap();
-            queue.pop().unwrap()
-        };
+            queue.pop()
+        }
+        .ok_or(PoolError::Closed)?;
         permit.forget();
         let _ = inner.available.fetch_sub(1, Ordering::Relaxed);
         Ok(Object {
@@ -236,10 +239,13 @@ impl<T> Pool<T> {
                 .map_err(|_| PoolError::Closed),
             (Some(_), None) => Err(PoolError::NoRuntimeSpecified),
         }?;
+        // The queue can only be empty here if the pool was closed (and
+        // therefore cleared) after the permit was obtained.
         let obj = {
             let mut queue = inner.queue.lock().unwrap();
-            queue.pop().unwrap()
-        };
+            queue.pop()
+        }
+        .ok_or(PoolError::Closed)?;
         permit.forget();
         let _ = inner.available.fetch_sub(1, Ordering::Relaxed);
         Ok(Object {
